@@ -48,11 +48,20 @@ type Case struct {
 // flakyStore injects transient object-store failures.
 type flakyStore struct {
 	dstore.Store
-	failWrites, failReads int32
+	failWrites, failReads *int32
+}
+
+// SubStore: store.NewConfig works on sub-stores; they share the failure budget.
+func (f *flakyStore) SubStore(p string) (dstore.Store, error) {
+	s, err := f.Store.SubStore(p)
+	if err != nil {
+		return nil, err
+	}
+	return &flakyStore{Store: s, failWrites: f.failWrites, failReads: f.failReads}, nil
 }
 
 func (f *flakyStore) WriteObject(ctx context.Context, name string, r io.Reader) error {
-	if atomic.AddInt32(&f.failWrites, -1) >= 0 {
+	if atomic.AddInt32(f.failWrites, -1) >= 0 {
 		io.Copy(io.Discard, r) // a real failure can come after the body was sent
 		return fmt.Errorf("injected: connection reset while writing %s", name)
 	}
@@ -81,7 +90,7 @@ func (f *flakyStore) OpenObject(ctx context.Context, name string) (io.ReadCloser
 	if err != nil {
 		return nil, err
 	}
-	if atomic.AddInt32(&f.failReads, -1) >= 0 {
+	if atomic.AddInt32(f.failReads, -1) >= 0 {
 		size, _ := f.Store.ObjectAttributes(ctx, name)
 		half := 1
 		if size != nil {
@@ -127,7 +136,13 @@ func evalContent(cs Case) (*core.Fail, bool) {
 		ds = storedrv.MemStore()
 	}
 	if cs.FailWrites > 0 || cs.FailReads > 0 {
-		ds = &flakyStore{Store: ds, failWrites: int32(cs.FailWrites), failReads: int32(cs.FailReads)}
+		fw, fr := int32(cs.FailWrites), int32(cs.FailReads)
+		ds = &flakyStore{Store: ds, failWrites: &fw, failReads: &fr}
+		defer func() {
+			if fw > 0 || fr > 0 {
+				panic("harness: an injected object-store failure was never reached")
+			}
+		}()
 	}
 	cfg := storedrv.NewConfig(combo, 10, ds)
 	var ops []refmodel.Op
